@@ -105,6 +105,31 @@ def run(rep, tier, seed, b):
         if oi == 'EncoderError' or len(it[1]) > 20:
             rep.nontriv(it[1][:200] + str(it[2]) + str(it[3]))
     rep.extra['slowest_call_s'] = round(slow, 3)
+    # the CPython set model itself (C09_encoder_total rests on it: distinct keys, complete lookups, probe loops that end): random add / pop / discard
+    # scripts, compared after every operation (popped key or KeyError, iteration order = table order) and at the end (table size, len)
+    import val_pyset as VP
+    scripts = [VP.gen_script(rng) for _ in range(500 if tier == 'quick' else 8000)]
+    for _ in range(20 if tier == 'quick' else 300):
+        hi = rng.choice([1 << 10, 1 << 12, 5000])     # keys are node labels: small; the extracted model keeps nat keys in unary
+        scripts.append([[rng.choice([0, 0, 0, 1, 2]), rng.randint(0, hi)] for _ in range(rng.randint(1, 120))])
+    d_ = core.Driver()
+    try:
+        mres = []
+        for i in range(0, len(scripts), 4):
+            mres += d_.batch([['pyset', ops] for ops in scripts[i:i + 4]])
+    finally:
+        d_.close()
+    nops = 0
+    for ops, r in zip(scripts, mres):
+        evs, mask, used = VP.run_py(ops)
+        nops += len(ops)
+        rep.impl_traces += 1
+        ok = 'ok' in r and r['ok'][0] == evs and r['ok'][1] == mask and r['ok'][3] == used
+        if not ok:
+            rep.disagreements.append({'op': 'CPython set (add / pop / discard script)', 'input': {'ops': ops[:60]}, 'impl': str((evs[-1:], mask, used))[:300],
+                                      'model': str(r.get('ok', r))[-300:]})
+    rep.extra['pyset_scripts'] = len(scripts)
+    rep.extra['pyset_operations'] = nops
     # the encoder after a history: the caller keeps (and edits, empties) the dict it passed to set_semantic_constraints, or a set call was rejected;
     # whatever table is in force, encoder() returns or raises EncoderError - nothing else (a KeyError from a table that lost its '?' entry, ...)
     import hist_common as H
